@@ -20,8 +20,8 @@ try:
     env = dict(os.environ, PYTHONPATH=tmp); env.pop("PYSNARK_BACKEND", None)
     r = subprocess.run(["/venv/bin/python", "-m", "pytest", "-q", "-p", "no:cacheprovider", "-x"], cwd=tmp, env=env, capture_output=True, text=True)
     print("tests:", r.stdout.strip().splitlines()[-1][:100])
-    d = subprocess.run(["git", "diff"], cwd=tmp, capture_output=True, text=True).stdout
-    open(out, "w").write(d)
+    d = subprocess.run(["git", "diff"], cwd=tmp, capture_output=True).stdout      # bytes: files with CRLF endings stay as they are
+    open(out, "wb").write(d)
     print("wrote", out, len(d.splitlines()), "lines")
 finally:
     shutil.rmtree(tmp, ignore_errors=True)
